@@ -78,6 +78,18 @@ func plan(tier string, seed int64) []driver.Case {
 					P: map[string]string{"kind": "op", "entry": e.Name, "nv": fmt.Sprint(nv), "end": end}})
 			}
 		}
+		// multi-source operators: every non-empty subset of the sources has a teardown that panics;
+		// the other sources (and the panicking ones) are released exactly once all the same
+		if e.NSrc >= 2 && !e.Flags.Has(catalog.Blocks) {
+			for mask := 1; mask < 1<<e.NSrc; mask++ {
+				for _, end := range []string{"complete", "error", "unsub-harness"} {
+					for _, nv := range []int{0, 1} {
+						cases = append(cases, driver.Case{ID: fmt.Sprintf("op/%s/v%d/%s/tdpanic%d", e.Name, nv, end, mask),
+							P: map[string]string{"kind": "op", "entry": e.Name, "nv": fmt.Sprint(nv), "end": end, "tdpanic": fmt.Sprint(mask)}})
+					}
+				}
+			}
+		}
 		// burst of values into the operator followed by an early-completing downstream
 		if e.Op != nil && e.NSrc == 1 && !e.Flags.Has(catalog.Blocks) {
 			for _, down := range []string{"Take(1)", "ElementAt(1)", "TakeWhile"} {
@@ -497,6 +509,9 @@ func runOp(c driver.Case) driver.Result {
 	var srcs []*src.Source
 	for i := 0; i < e.NSrc; i++ {
 		s := src.New(fmt.Sprintf("s%d", i))
+		if c.Get("tdpanic") != "" && c.Int("tdpanic")&(1<<i) != 0 {
+			s.PanicInTeardown = fmt.Sprintf("teardown of source %d panics", i)
+		}
 		srcs = append(srcs, s)
 		b.Srcs = append(b.Srcs, s.Observable())
 	}
